@@ -71,7 +71,7 @@ def case_strategy(draw, tier):
         if kind == "run":
             ops.append(draw(run_op(heat)))
         elif kind == "edit_undo":
-            ops.append({"op": "edit_undo", "k": draw(st.integers(0, 50)), "what": draw(st.sampled_from(["load", "length", "in_service", "p", "ext_grid_junction", "rewire"])),
+            ops.append({"op": "edit_undo", "k": draw(st.integers(0, 50)), "what": draw(st.sampled_from(["load", "length", "in_service", "p", "ext_grid_junction", "rewire", "temperature"])),
                         "factor": draw(st.sampled_from([0.5, 2.0, 1e4])), "run": draw(run_op(heat))["opts"]})
         elif kind == "user_opts":
             ops.append({"op": "user_opts", "opts": draw(st.sampled_from([{"friction_model": "swamee-jain"}, {"iter": 2}, {"tol_m": 1e-7},
@@ -216,6 +216,19 @@ def apply_edit(net, rec, op):
             return None
         e = c[k % len(c)]
         col, tbl, new = "length_km", "pipe", e["length_km"] * min(fac, 2.0)
+    elif what == "temperature":
+        # fluid temperature of the whole net (start values / fluid properties of the hydraulic stage)
+        olds = [(j, j["tfluid_k"]) for j in rec["junction"]]
+        dt = 25.0 if fac > 1 else -12.0
+        for j in rec["junction"]:
+            j["tfluid_k"] = j["tfluid_k"] + dt
+            net.junction.at[j["index"], "tfluid_k"] = j["tfluid_k"]
+
+        def undo_t():
+            for j, v in olds:
+                j["tfluid_k"] = v
+                net.junction.at[j["index"], "tfluid_k"] = v
+        return undo_t
     elif what == "in_service":
         c = [e for e in els if e["table"] in ("pipe", "sink", "heat_consumer", "heat_exchanger", "source")]
         if not c:
@@ -265,7 +278,9 @@ def evaluate(case):
     statuses = []
     modes_seen = []
     reuse_seen = []
+    reused_real = []
     reloads = []
+    struct = {"now": 0, "data": -1}      # version of the net's structure / version the stored internal data belongs to
     snap0 = snapshot(net)
 
     def fresh():
@@ -277,11 +292,16 @@ def evaluate(case):
 
     def check_run(opts, label, step):
         nonlocal snap0
-        if opts.get("reuse_internal_data") and ("_internal_data" in net or label == "run_after_undo"):
-            # stored data of another state: reusing it is the caller's responsibility, not part of the property
+        if opts.get("reuse_internal_data") and "_internal_data" in net and struct["data"] != struct["now"]:
+            # stored data of another structure (an element was switched / re-wired since): reusing it is the caller's
+            # responsibility, not part of the property. Data stored for the same structure - with other loads, lengths,
+            # pressures, temperatures, options - IS reused: the result must not depend on it.
             opts = {k_: v_ for k_, v_ in opts.items() if k_ != "reuse_internal_data"}
         if opts.get("reuse_internal_data"):
             reuse_seen.append(step)
+            if "_internal_data" in net:
+                reused_real.append(step)
+            struct["data"] = struct["now"]
         before = snapshot(net)
         st1 = call(net, copy.deepcopy(opts))
         d = diff_snapshot(before, snapshot(net))
@@ -318,10 +338,16 @@ def evaluate(case):
             undo = apply_edit(net, rec, op)
             if undo is None:
                 continue
+            structural = op["what"] in ("in_service", "ext_grid_junction", "rewire")
+            if structural:
+                struct["now"] += 1
             check_run(op["run"], "run_with_edit", step)
             undo()
+            if structural:
+                struct["now"] += 1
             check_run(op["run"], "run_after_undo", step)
         elif op["op"] == "reload":
+            struct["now"] += 1           # a re-loaded / copied net starts without internal data of its own
             net = reload_net(net, op["how"])
             reloads.append(op["how"])
         elif op["op"] == "user_opts":
@@ -363,6 +389,8 @@ def evaluate(case):
     failing = any(s != "ok" for s in statuses)
     mode_change = len(set(modes_seen)) >= 2
     labels = {"len:%d" % min(len(statuses), 9)} | {"status:" + s for s in set(statuses)} | {"mode:" + m for m in set(modes_seen)}
+    if reused_real:
+        labels.add("internal_data_really_reused")
     if reuse_seen:
         labels.add("reuse_internal_data_then_more_runs" if reuse_seen[0] < len(case["ops"]) - 1 else "reuse_internal_data")
     for op in case["ops"]:
